@@ -51,6 +51,8 @@ type cell struct {
 	Src string
 	SrcBase string
 	Under *Val
+	Fn    *ssa.Function // statically known function value held in the cell (closures, bound methods)
+	Bind  []*Val
 }
 
 type deferred struct {
@@ -100,6 +102,7 @@ type State struct {
 	Base   map[string]string // heap name -> entry value updated with every interference step (frame baseline)
 	Owner  map[string]string // fresh ref -> the fresh object whose field holds it
 	LoopHeap map[*ssa.BasicBlock]map[string]string // heap snapshot at the entry of each loop (loopentry())
+	IterHeap map[string]string // heap at the start of the current (arbitrary) loop iteration (iterstart())
 	// Private: refs of struct objects allocated here whose address provably never escapes this body.
 	Private map[string]bool
 }
@@ -120,6 +123,7 @@ func (s *State) clone() *State {
 		Shared: s.Shared,
 		Private: s.Private,
 		LoopHeap: s.LoopHeap,
+		IterHeap: s.IterHeap,
 		Owner:  s.Owner,
 		Base:   s.Base,
 		Entry:  s.Entry,
@@ -186,6 +190,8 @@ type Engine struct {
 	C        *Contracts
 	Cfg      *CheckConfig
 	nfresh   int
+	postSeen map[int]int // ensures clause -> return paths on which it was applicable
+	postReturns int
 	Obls     map[string]*Obligation
 	OblOrder []string
 	Fn       *ssa.Function
